@@ -38,58 +38,77 @@ def srcTests : Option Tests :=
     below are about the code as it is. -/
 theorem C09_gen_tests : srcTests = some fixed := by decide
 
-/-- **C09_gen_shape.**  `_getInstance` has exactly the statement structure the model follows: the
-    three mode branches in order, get / test / create / store / return in `single` (all inside the lock)
-    and `session`, a bare create in `percall`, `DaemonError` otherwise; `createInstance` is
-    creator-if-truthy, isinstance check, else `clazz()`. -/
+/-- **C09_gen_shape.**  `_getInstance` has the control structure the model follows, up to renaming of
+    parameters / locals / the helper, logging, docstrings, message texts and the early-return ⇄ else and negated-test
+    forms (see harness/props/c09_extract.py): unpack of `_pyroInstancing`; the three mode branches in order;
+    get / test / create / store / return in `single` (all inside the lock) and `session`; a bare create in
+    `percall`; `DaemonError` otherwise; the creation helper is creator-if-truthy, isinstance check else
+    `TypeError`, otherwise `clazz()`, every exception re-raised. -/
 theorem C09_gen_shape :
-    Pyro.Gen.C09.unpack = "instance_mode, instance_creator = clazz._pyroInstancing" ∧
+    Pyro.Gen.C09.unpack = "v0, v1 = a0._pyroInstancing" ∧
     Pyro.Gen.C09.modeBranches = ["single", "session", "percall"] ∧
-    Pyro.Gen.C09.singleShape = "with(self.create_single_instance_lock)[instance = self._pyroInstances.get(clazz);if(TEST)[instance = createInstance(clazz, instance_creator);self._pyroInstances[clazz] = instance];return instance]" ∧
-    Pyro.Gen.C09.sessionShape = "instance = conn.pyroInstances.get(clazz);if(TEST)[instance = createInstance(clazz, instance_creator);conn.pyroInstances[clazz] = instance];return instance" ∧
-    Pyro.Gen.C09.percallShape = "return createInstance(clazz, instance_creator)" ∧
+    Pyro.Gen.C09.singleShape = "with(self.create_single_instance_lock)[x0 = self._pyroInstances.get(a0);if(TEST)[x0 = f0(a0, v1);self._pyroInstances[a0] = x0];return x0]" ∧
+    Pyro.Gen.C09.sessionShape = "x0 = a1.pyroInstances.get(a0);if(TEST)[x0 = f0(a0, v1);a1.pyroInstances[a0] = x0];return x0" ∧
+    Pyro.Gen.C09.percallShape = "return f0(a0, v1)" ∧
     Pyro.Gen.C09.elseShape = "raise errors.DaemonError" ∧
-    Pyro.Gen.C09.createArgs = ["clazz", "creator"] ∧
-    Pyro.Gen.C09.createShape = "try[if(creator)[obj = creator(clazz);if(isinstance(obj, clazz))[return obj];raise TypeError];return clazz()]except(Exception)[raise]" :=
-  ⟨rfl, rfl, rfl, rfl, rfl, rfl, rfl, rfl⟩
+    Pyro.Gen.C09.createShape = "try[if(a1)[x0 = a1(a0);if(isinstance(x0, a0))[return x0]else[raise TypeError]]else[return a0()]]except(Exception)[raise]" :=
+  ⟨rfl, rfl, rfl, rfl, rfl, rfl, rfl⟩
 
-/-- **C09_gen_lock.**  Every access of `_pyroInstances` outside `Daemon.__init__` (where the daemon is
-    not shared yet) is lexically inside `with self.create_single_instance_lock:`, the accesses of
-    `_getInstance` are the two the micro-step model has, the lock is a plain `threading.Lock`, and no
-    other module touches either table. -/
+/-- **C09_gen_lock.**  The only functions that touch `_pyroInstances` are `Daemon.__init__` (where the daemon is
+    not shared yet) and `_getInstance`, whose accesses are all lexically inside `with <the single-instance lock>:`;
+    the lock is a real `threading` lock; no other function of the package mentions either table; `_getInstance`
+    has its one call site in `handleRequest`. -/
 theorem C09_gen_lock :
-    (∀ m ∈ Pyro.Gen.C09.instShape, m.1 = "Daemon.__init__" ∨ m.2.2 = 0) ∧
-    ("Daemon._getInstance", 2, 0) ∈ Pyro.Gen.C09.instShape ∧
-    Pyro.Gen.C09.lockKind = "threading.Lock" ∧
-    Pyro.Gen.C09.tableUsers = ["server.py:5", "socketutil.py:2"] ∧
-    Pyro.Gen.C09.getInstanceCallers = ["handleRequest: self._getInstance(obj, conn)"] := by decide
+    Pyro.Gen.C09.instShape.map (·.1) = ["Daemon.__init__", "Daemon._getInstance"] ∧
+    (∀ m ∈ Pyro.Gen.C09.instShape, m.1 = "Daemon.__init__" ∨ (m.2.2 = 0 ∧ 0 < m.2.1)) ∧
+    Pyro.Gen.C09.lockKind ∈ ["Lock", "RLock"] ∧
+    Pyro.Gen.C09.tableUsers = ["server.py:Daemon.__init__", "server.py:Daemon._getInstance",
+      "socketutil.py:SocketConnection.__init__", "socketutil.py:SocketConnection.close"] ∧
+    Pyro.Gen.C09.getInstanceCallers = ["Daemon.handleRequest:1"] := by decide
 
-/-- **C09_gen_daemon.**  Every `Daemon` object gets a table and a lock of its own: `__init__` assigns a fresh
-    dict / a fresh lock to the instance, and neither name exists as a class attribute (which all daemons of
-    the process would share).  This is what makes m daemons m independent copies of the model. -/
+/-- **C09_gen_daemon.**  (Probe of two real `Daemon` objects.)  Every daemon has an empty table and a lock of its
+    own in its instance dict, and neither name exists as a class attribute (which all daemons of the process
+    would share).  This is what makes m daemons m independent copies of the model. -/
 theorem C09_gen_daemon :
-    Pyro.Gen.C09.daemonInitTables =
-      ["self._pyroInstances = {}", "self.create_single_instance_lock = threading.Lock()"] ∧
+    Pyro.Gen.C09.daemonsOwnTables = true ∧ Pyro.Gen.C09.daemonsOwnLocks = true ∧
     Pyro.Gen.C09.daemonClassLevelTables = [] :=
-  ⟨rfl, rfl⟩
-
-/-- **C09_gen_conn.**  A connection starts with an empty session table, `close` returns early only for
-    `keep_open` and otherwise replaces the table by an empty one, and nothing else in `socketutil`
-    writes it. -/
-theorem C09_gen_conn :
-    Pyro.Gen.C09.connInit = ["self.pyroInstances = {}", "self.keep_open = keep_open"] ∧
-    Pyro.Gen.C09.connClose = ["if(self.keep_open)[return]", "With", "With", "self.pyroInstances = {}", "For", "Expr"] ∧
-    Pyro.Gen.C09.connOtherWriters = [] :=
   ⟨rfl, rfl, rfl⟩
 
-/-- **C09_gen_behavior.**  `behavior` performs the checks of `behaviorCheck` in its order and stores
-    `(instance_mode, instance_creator)`; `register` defaults to `("session", None)`. -/
+/-- **C09_gen_conn.**  (Probe of real `SocketConnection` objects.)  A connection starts with an empty session table
+    of its own; `close` empties it — also when `shutdown()` and/or `close()` of the socket fail — and leaves it
+    alone only for a `keep_open` connection; it never raises. -/
+theorem C09_gen_conn :
+    Pyro.Gen.C09.connFresh = true ∧
+    Pyro.Gen.C09.connClose = [("plain", true), ("keep_open", false), ("shutdown-fails", true), ("close-fails", true),
+      ("both-fail", true)] := by decide
+
+def modeArgOfCode : Nat → ModeArg
+  | 0 => .str .single | 1 => .str .session | 2 => .str .percall | 3 => .str .invalid | _ => .notStr
+
+def creatorArgOfCode : Nat → CreatorArg
+  | 0 => .none | 1 => .callable | 2 => .falsyCallable | 3 => .notCallable | _ => .falsyNotCallable
+
+def specCode (s : ClassSpec) : Nat :=
+  100 + 10 * (match s.mode with | .single => 0 | .session => 1 | .percall => 2 | .invalid => 3) +
+    (match s.creator with | .none => 0 | .callable => 1 | .falsy => 2)
+
+def behaviorCode : BehaviorRes → Nat
+  | .stored s => specCode s | .typeError => 1 | .valueError => 2 | .syntaxError => 3
+
+/-- **C09_gen_behavior.**  (Probe of the real `behavior` and `register`.)  On the whole abstract argument table —
+    class or not × {three modes, another string, not a string} × {None, callable, falsy callable, truthy
+    non-callable, falsy non-callable} — the real decorator does exactly what `behaviorCheck` says (which error,
+    or which `(mode, creator)` pair is stored); its defaults are ("session", None); `register` stamps
+    ("session", None) on an undecorated class only, leaving a decorated class and a subclass that inherits its
+    instancing alone. -/
 theorem C09_gen_behavior :
-    Pyro.Gen.C09.behaviorDefaults = ["'session'", "None"] ∧
-    Pyro.Gen.C09.behaviorOuter = "if(not isinstance(instance_mode, str))[raise SyntaxError];return _behavior" ∧
-    Pyro.Gen.C09.behaviorInner = "if(not inspect.isclass(clazz))[raise TypeError];if(instance_mode not in ('single', 'session', 'percall'))[raise ValueError];if(instance_creator and (not callable(instance_creator)))[raise TypeError];clazz._pyroInstancing = (instance_mode, instance_creator);return clazz" ∧
-    Pyro.Gen.C09.registerDefault = "if(not hasattr(obj_or_class, '_pyroInstancing'))[obj_or_class._pyroInstancing = ('session', None)]" :=
-  ⟨rfl, rfl, rfl, rfl⟩
+    Pyro.Gen.C09.behaviorTable.map (fun r => (r.1, r.2.1, r.2.2.1)) =
+      ([true, false].flatMap fun ic => (List.range 5).flatMap fun m => (List.range 5).map fun c => (ic, m, c)) ∧
+    (∀ r ∈ Pyro.Gen.C09.behaviorTable,
+      behaviorCode (behaviorCheck r.1 (modeArgOfCode r.2.1) (creatorArgOfCode r.2.2.1)) = r.2.2.2) ∧
+    Pyro.Gen.C09.behaviorDefault = specCode (registerSpec none) ∧
+    Pyro.Gen.C09.registerProbe = [specCode (registerSpec none), specCode (registerSpec (some ⟨.percall, .callable⟩)),
+      specCode (registerSpec (some ⟨.single, .none⟩))] := by decide
 
 /-- **C09_behavior_modes.**  Whatever `behavior` accepts stores one of the three modes: the
     `DaemonError` branch of `_getInstance` is unreachable through the decorator; and a class registered
